@@ -59,8 +59,11 @@ Theorem C09_copy_element_register : forall st r d e,
   getE st r = Ok e -> getE (fst (exec st (ECopy r d))) d = Ok e.
 Proof. exact copy_el_register. Qed.
 
+(* statement corrected at the end of the build phase: Sequence.copy() does not carry the sequence's name (found by a
+   background soak - a follow-up program named a sequence, copied it and exported the copy to SEQX; the model had
+   copied the name).  Data, sequencing and channel settings are the source's; the name is empty. *)
 Theorem C09_copy_sequence_register : forall st r d s,
-  getS st r = Ok s -> getS (fst (exec st (SCopy r d))) d = Ok s.
+  getS st r = Ok s -> getS (fst (exec st (SCopy r d))) d = Ok (mkSeq (sdata s) (sseq s) (sspecs s) []).
 Proof. exact copy_seq_register. Qed.
 
 Print Assumptions C09_copy_blueprint_register.
